@@ -71,9 +71,19 @@ def fence_len(lines, ch):
     return n + 1
 
 
+NOARG = ("note", "tip", "warning", "important")
+FIRSTLINE_OK = re.compile(r"[A-Za-z0-9\\\\&(]|\*\S|_\S")
+FIRSTLINE_BAD = re.compile(r"\[[^\]]*\]:|(\*|_|-){3,}\s*$|[*+-]\s|\d+[.)]\s")
+
+
 def wrap_directive(lines, layer):
-    name, ch, style, nblank, extra, tail = layer
+    name, ch, style, nblank, extra, tail = layer[:6]
+    firstline = len(layer) > 6 and layer[6]
     n = fence_len(lines, ch) + extra
+    if (firstline and name in NOARG and style == "none" and lines and FIRSTLINE_OK.match(lines[0]) and not FIRSTLINE_BAD.match(lines[0]) and not (ch == "`" and "`" in lines[0])
+            and lines[0] == lines[0].strip() and not (len(lines) > 1 and (re.match(r"\s*(=+|-+)\s*$", lines[1]) or lines[1].lstrip().startswith((":", "---"))))):  # a second line starting with ':' / '---' is an option block by definition
+        # a directive without arguments: the text after its name on the opening line is the first line of the body
+        return [ch * n + "{" + name + "} " + lines[0]] + lines[1:] + [""] * tail + [ch * n]
     first = "{" + name + "}" + (" A *title*" if name == "admonition" else (" cls1 cls2" if name == "container" else ""))
     head = []
     opt = f"name: nm-{len(lines)}-{n}" if name == "container" else "class: c1"
@@ -160,6 +170,8 @@ def render(text, src, **kw):
 def body_lines(case):
     if case["src"] == "none":
         return ["x"]
+    if case["src"] == "lines":
+        return list(case["lines"])
     if case["src"] == "spec":
         return SPEC[case["idx"] % len(SPEC)].rstrip("\n").split("\n")
     g = G.Gen(random.Random(case["seed"]), blocks=case.get("blocks") or BLOCKS, inlines=case.get("inlines"), max_depth=3, heading_in_container=False, hr_in_container=True, exotic=case["seed"] % 3 == 0)
@@ -390,9 +402,13 @@ INLINES = ["*em* and **strong**", "`code`", "[link](https://e.org)", "![img](i.p
            "[t]{.cls}", "x[^zz]", "<https://auto.link>", "plain", "- not a list", "> not a quote", "# not a heading"]
 
 
+FIRSTLINES = ["\\*x\\* and \\[a\\](b)", "&lt;b&gt; &amp;amp; &#42;y&#42;", "\\{\\{ key \\}\\} text", "plain *em* text", "a \\\\ b \\_c\\_", "x &copy; y &nosuch; z", "(paren) \\# not heading", "5 \\> 3 &gt; 1", "url <https://e.org> x",
+              "text with trailing backslash\\", "*em* **strong** [l](https://e.org \"t\")"]
+
+
 def rand_layer(R):
     ch = R.choice(["`", "`", "~", ":", ":"])
-    return [R.choice(NAMES), ch, R.choice(["none", "none", "colon", "dash"]), R.choice([0, 0, 1, 2]), R.choice([0, 0, 1, 3]), R.choice([0, 0, 1])]
+    return [R.choice(NAMES), ch, R.choice(["none", "none", "colon", "dash"]), R.choice([0, 0, 1, 2]), R.choice([0, 0, 1, 3]), R.choice([0, 0, 1]), R.random() < 0.3]
 
 
 def run_shard(ctx):
@@ -427,6 +443,15 @@ def run_shard(ctx):
             ctx.sample(case)
         if (i & 0x1F) == 0 and ctx.out_of_time():
             break
+    for i in range(80 if quick else 4000):
+        # body text that starts on the opening line of a directive without arguments
+        ly = rand_layer(R)
+        ly[0], ly[2], ly[6] = R.choice(NOARG), "none", True
+        lines = [R.choice(FIRSTLINES)] + R.choice([[], [], ["second line &amp; \\*more\\*"], ["", "another paragraph"]])
+        case = {"kind": "directive", "layers": [rand_layer(R) for _ in range(R.choice([0, 0, 1]))] + [ly], "outer": R.choice([[], [], ["quote"], ["list"]]), "src": "lines", "lines": lines}
+        eval_case(ctx, case)
+        ctx.case(repr(case), True)
+        ctx.count("firstline_cases")
     for i in range(60 if quick else 3000):
         case = {"kind": "repeat", "uses": R.choice([["refdef"], ["footnote"], ["target"], ["refdef", "footnote"], ["refdef", "footnote", "target"]]), "wrapper": R.choice(["directive", "directive", "include", "subst"]), "layer": rand_layer(R)}
         eval_case(ctx, case)
